@@ -183,3 +183,5 @@ def install():
     _wrap(WC, 'reset_worker_restart', wid0)
     _wrap(WC, 'init_comms', lambda self, a, kw: {})
     _wrap(WC, 'reset_progress', lambda self, a, kw: {})
+    if any(r.get('method') == 'is_worker_alive' for r in _PLAN):
+        _wrap(WC, 'is_worker_alive', None)
